@@ -44,6 +44,9 @@ CASES = [
  ('c04-remove-cluster-no-bump', 'C04', U, '            }\n        }\n\n        self.store.bump_global_epoch();\n        Ok(())\n    }\n\n    pub fn auto_scale_up_nodes', '            }\n        }\n\n        Ok(())\n    }\n\n    pub fn auto_scale_up_nodes', 'violation'),
  ('c04-change-config-stale-epoch', 'C04', U, '// Will bump epoch later on success.\n        let new_epoch = self.store.get_global_epoch() + 1;\n        match self.store.clusters.get_mut(&cluster_name) {\n            None => return Err(MetaStoreError::ClusterNotFound),\n            Some(ref mut cluster) => {\n                if cluster.is_migrating() {\n                    return Err(MetaStoreError::MigrationRunning);\n                }\n\n                let mut cluster_config', '// Will bump epoch later on success.\n        let new_epoch = self.store.get_global_epoch();\n        match self.store.clusters.get_mut(&cluster_name) {\n            None => return Err(MetaStoreError::ClusterNotFound),\n            Some(ref mut cluster) => {\n                if cluster.is_migrating() {\n                    return Err(MetaStoreError::MigrationRunning);\n                }\n\n                let mut cluster_config', 'violation'),
  ('c04-takeover-epoch-minus', 'C04', U, '        cluster.epoch = new_epoch;\n        Ok(())', '        cluster.epoch = new_epoch - 1;\n        Ok(())', 'violation'),
+ ('c04-migrate-no-running-guard', 'C04', MG, '        Self::check_running_tasks(cluster)?;\n\n        let migration_slots = Self::remove_slots_from_src(cluster, new_epoch);', '        let migration_slots = Self::remove_slots_from_src(cluster, new_epoch);', 'violation'),
+ ('c04-migrate-no-set-epoch', 'C04', MG, '        Self::assign_dst_slots(cluster, migration_slots.clone());\n        cluster.set_epoch(new_epoch);\n\n        Self::print_migration_slot(cluster, &migration_slots);\n        Ok(())\n    }\n\n    fn remove_slots_from_src(', '        Self::assign_dst_slots(cluster, migration_slots.clone());\n\n        Self::print_migration_slot(cluster, &migration_slots);\n        Ok(())\n    }\n\n    fn remove_slots_from_src(', 'violation'),
+ ('c04-running-check-inverted', 'C04', MG, '.any(|chunk| chunk.migrating_slots.iter().any(|slots| !slots.is_empty()));\n        if running_migration {', '.any(|chunk| chunk.migrating_slots.iter().any(|slots| slots.is_empty()));\n        if running_migration {', 'violation'),
  # ---- C01
  ('c01-compact-adjacent', 'C01', CL, 'if s.end() + 1 >= e.start() {', 'if s.end() >= e.start() {', 'violation'),
  ('c01-compact-truncate', 'C01', CL, 'self.0.truncate(a + 1);', 'self.0.truncate(a);', 'violation'),
